@@ -527,6 +527,19 @@ fn tiny_time_scale() -> Option<String> {
             }
         }
     }
+    // (c) requested output times are answered by the step that contains them, whatever the time scale
+    for m in [Method::RK4, Method::DOPRI5, Method::RADAU, Method::BDF] {
+        let w = 1e12; let xe = 6e-12;
+        let te: Vec<f64> = (1..=40).map(|i| xe * (i as f64) / 40.0).collect();
+        if let Ok(s) = solve_ivp(&Osc { w }, 0.0, xe, &[0.0], Options::builder().method(m.clone()).t_eval(te.clone()).rtol(1e-8).atol(1e-10).build()) {
+            for (t, y) in s.t.iter().zip(s.y.iter()) {
+                let e = (y[0] - (w * t).sin()).abs();
+                if s.status == Status::Success && e > 1e-5 {
+                    return Some(format!("{:?} on [0, {:e}] (y = sin(w t), w = 1e12) with 40 requested times: status Success, but the value reported at t = {:e} is {:e}, y(t) = {:e}", m, xe, t, y[0], (w * t).sin()));
+                }
+            }
+        }
+    }
     None
 }
 
